@@ -92,11 +92,13 @@ def isPointer (b : WBatch) : Bool :=
 inductive Tail where
   | clean                            -- the reader reaches end-of-stream (StopIteration)
   | invalid                          -- reading the next batch raises pa.ArrowInvalid / OSError (truncated, garbage)
+  | other                            -- … raises something else (e.g. ArrowNotImplementedError): not a retry type
 deriving Repr, DecidableEq
 
 /-- what `ipc.open_stream(BytesIO(data))` + `read_next_batch_with_custom_metadata()` make of some bytes -/
 inductive Parsed where
-  | bad                              -- `open_stream` raises
+  | bad                              -- `open_stream` raises pa.ArrowInvalid / OSError
+  | other                            -- `open_stream` raises something else: propagates, no retry
   | stream (schema : Nat) (batches : List WBatch) (tail : Tail)
 deriving Repr, DecidableEq
 
@@ -118,6 +120,7 @@ inductive Reject where
   | noData
   | multiple (n : Nat)
   | schemaMismatch
+  | readError                        -- an Arrow exception outside the retry types, propagated as is
   | exhausted                        -- "Failed to resolve ExternalLocation after N attempts"
 deriving Repr, DecidableEq
 
@@ -125,6 +128,7 @@ deriving Repr, DecidableEq
 def scan : List WBatch → Tail → Except Reject (List Log × List WBatch)
   | [], .clean => .ok ([], [])
   | [], .invalid => .error .arrowInvalid
+  | [], .other => .error .readError
   | b :: r, t =>
     if hasLocation b then .error .loop else
     match classify b with
@@ -154,6 +158,7 @@ def fetchAndResolve (expSchema : Nat) (expSha : Option Str) : Fetched → Except
     if shaBad expSha sha then .error .shaMismatch else
     match parsed with
     | .bad => .error .arrowInvalid
+    | .other => .error .readError
     | .stream sch bs tail =>
       match scan bs tail with
       | .error e => .error e
